@@ -181,14 +181,14 @@ CLAIMED = {
             "dig: a^|b| mod m canonical, m = 1, b = 0, negative exponents through the inverse, even / non-positive modulus -> the error the code reports; bn_mxp_sim, bn_mxp_sim_few (every n) and bn_mxp_sim_lot; "
             "bn_mxp_crt (both branches; RSA corollary = a^d mod pq); bn_smb_leg = legendreSym for odd primes; bn_smb_jac = Mathlib's jacobiSym for every one-digit odd "
             "modulus and for the single-digit loop on unbounded naturals; bn_is_prime_rabin / basic / bn_is_prime / solov: every prime is accepted (completeness; a rejection "
-            "by trial division exhibits a divisor); bn_srt = Nat.sqrt; bn_mod_barrt = a mod m with at most 2 corrections; bn_mod_pre_monty / monty_basic / comba / conv / back "
-            "as REDC (canonical, r*R = a mod m); bn_mod_pmers for every m > 0; bn_evl (Horner) and bn_lag (coefficients of prod (X - a_i) mod b). PARTIAL theorems ('whenever the "
+            "by trial division exhibits a divisor); bn_srt = Nat.sqrt; bn_mod_barrt = a mod m in [0, m) for every integer a with at most 2 corrections; bn_mod_pre_monty / monty_basic / comba / conv / back "
+            "as REDC (canonical, r*R = a mod m); bn_mod_pmers for every integer a and every m > 0; bn_evl (Horner) and bn_lag (coefficients of prod (X - a_i) mod b). PARTIAL theorems ('whenever the "
             "model returns'; the model checks overflow / sign / fuel on every line instead of assuming them): bn_gcd_lehme / bn_gcd_ext_lehme (unimodular simulated matrix, "
             "tracked cofactor + exact division), bn_smb_jac for multi-digit moduli (inner-step lemmas proved: no wrap, exact divisibility by 2^s, low-bit agreement, sign "
             "repair; the per-iteration Jacobi invariant and termination are open: compared with the textbook symbol per line). Class C (specification only): bn_mod_basic "
             "(C01's division), bn_is_prime_solov on composites, rejection of composites by the fixed-base tests (corpus: Carmichael numbers, strong pseudoprimes, prime squares, "
-            "close-prime products), prime generation; bn_gcd_ext_mid is modelled and tied with a weaker theorem (its vectors lie in the GLV lattice; shortness per curve is C18's). Two genuine defects are listed as known findings with "
-            "exact-value matchers: C09-ext-mod-1 (Barrett / pseudo-Mersenne reduction non-canonical for negative operands), C09-ext-mxp-1 (bn_mxp_sim ignores the sign of the "
+            "close-prime products), prime generation; bn_gcd_ext_mid is modelled and tied with a weaker theorem (its vectors lie in the GLV lattice; shortness per curve is C18's). One genuine defect found by the models is repaired in /repo (060ee71, C09-ext-mod-1: Barrett / pseudo-Mersenne reduction non-canonical for negative operands; "
+            "its classes are presented in every run), one is listed as a known finding with an exact-value matcher: C09-ext-mxp-1 (bn_mxp_sim ignores the sign of the "
             "exponents). Tie: ~12000 structured lines per run (quick), ~212000 (thorough): every variant by name, boundary operands, every model branch tagged.",
             "Trusted: Lean kernel; hand-written value-level models tied by correspondence (the digit layer below bn_add / bn_mul / bn_div / shifts is C01's); Montgomery "
             "form inside the exponentiation models is taken by value; primality ground truth = deterministic Miller-Rabin below 2^80, supplied factors, C18-certified / "
